@@ -1,5 +1,6 @@
 (* C13 - Restricted storages expose the same components without changing membership. *)
-From SV Require Import Base.ListX Store.Masked World.Env World.Join World.JoinProps World.EnvSim.
+From SV Require Import Base.ListX Store.Masked World.Env World.Join World.JoinProps World.JoinAbs World.JoinRefine
+  World.JoinAbsProps World.EnvSim.
 
 (* a restricted view is a member exactly where the storage is *)
 Theorem C13_visits_the_storages_members : forall e eids sid mode selmod selrem d others i,
@@ -39,6 +40,28 @@ Theorem C13_any_storage_kind : forall e1 e2 av eids hs k ms, env_rel e1 e2 ->
   env_rel (fst (env_join e1 av eids hs k ms)) (fst (env_join e2 av eids hs k ms)).
 Proof. exact env_join_rel. Qed.
 
+
+(* writing changes only that entity's component: of the visited cells exactly those the caller chose to fetch
+   mutably change (by what was written), every other cell of the storage keeps its value (on the maps the
+   storages represent: C06_join_refines_the_join_on_maps relates them to the real storages) *)
+Theorem C13_writes_only_the_chosen_items : forall unit av hs excl eids pre post s selmod selrem d others keys S j, NoDup keys ->
+  forallb (fun m => negb (m_owns m s)) pre = true -> forallb (fun m => negb (m_owns m s)) post = true ->
+  cell (fst (a_visit_keys unit av hs excl eids (pre ++ MRestrict s 1 selmod selrem d others :: post) keys S)) s j =
+    if in_dec N.eq_dec j keys then (if N.eqb (N.modulo j selmod) selrem then bump (unit s) d (cell S s j) else cell S s j)
+    else cell S s j.
+Proof. exact join_restricted_writes_the_chosen_cells_only. Qed.
+
+(* read-only restrictions (restrict(), or a shared reference to restrict_mut()) change nothing *)
+Theorem C13_read_only_views_change_nothing : forall unit av hs excl eids ms keys S s j, NoDup keys ->
+  forallb (fun m => negb (m_owns m s)) ms = true ->
+  cell (fst (a_visit_keys unit av hs excl eids ms keys S)) s j = cell S s j.
+Proof. exact join_leaves_unowned_storages_alone. Qed.
+
+Theorem C13_join_refines_the_join_on_maps : forall unit av hs excl eids ms keys e S, absrel unit e S ->
+  snd (visit_keys av hs excl eids ms keys e) = snd (a_visit_keys unit av hs excl eids ms keys S) /\
+  absrel unit (fst (visit_keys av hs excl eids ms keys e)) (fst (a_visit_keys unit av hs excl eids ms keys S)).
+Proof. exact visit_keys_abs. Qed.
+
 (* non-vacuity: a tracked storage, only the odd indices fetched mutably (Modified 1, Modified 5; nothing
    for index 2), lookups of a live handle (through get_other_mut: Modified 1 each time on this wrapper)
    and of a dead one *)
@@ -66,3 +89,6 @@ Print Assumptions C13_direct_read_is_the_same.
 Print Assumptions C13_other_entity_lookup.
 Print Assumptions C13_membership_unchanged.
 Print Assumptions C13_any_storage_kind.
+Print Assumptions C13_writes_only_the_chosen_items.
+Print Assumptions C13_read_only_views_change_nothing.
+Print Assumptions C13_join_refines_the_join_on_maps.
